@@ -545,6 +545,14 @@ Excluded(it, P, dj) ==
         ~(P[n].dy > 0 /\ it.dattr[P[n].dy].d) /\
         (IF "DictOverridesByPosition" \in Dev THEN n > dj ELSE P[n].dy > P[dj].dy) } }
 
+\* keys that later dictionaries of the same statement supply: the later source
+\* wins (C07).  The code emits such a name once per dictionary (deviation
+\* DictDuplicatesAcrossDicts).
+LaterDictKeys(it, P, dj, i) ==
+  IF "DictDuplicatesAcrossDicts" \in Dev THEN {}
+  ELSE UNION { KeysOf(cells[CDict(i, P[n].dy)]) :
+               n \in { n \in 1..Len(P) : n > dj /\ P[n].dy > 0 /\ it.dattr[P[n].dy].d } }
+
 SStag ==    \* visit_Start; Cache(filtering): attribute dictionaries are evaluated first
   /\ Running /\ F.st = "stag"
   /\ IF TagShown
@@ -598,7 +606,8 @@ SAttr ==    \* visit_Attribute / visit_DictAttributes
              /\ UNCHANGED <<envs, glob, rep, cells, log, tok, exc>>
         ELSE IF It.dattr[a.dy].d
         THEN \* dictionary: already evaluated
-             /\ out' = out \o DictAtoms(F.i, cells[CDict(F.i, a.dy)], 1, Excluded(It, P, F.j), prog.bools)
+             /\ out' = out \o DictAtoms(F.i, cells[CDict(F.i, a.dy)], 1,
+                                        Excluded(It, P, F.j) \cup LaterDictKeys(It, P, F.j, F.i), prog.bools)
              /\ ctl' = nxt
              /\ UNCHANGED <<envs, glob, rep, cells, log, tok, exc>>
         ELSE LET d == It.dattr[a.dy]
@@ -774,7 +783,7 @@ RECURSIVE LastStag(_, _)
 LastStag(o, n) == IF n = 0 THEN 0 ELSE IF o[n].a = "stag" THEN n ELSE LastStag(o, n - 1)
 AttrAtMostOncePerName ==
   LET s == LastStag(out, Len(out)) IN
-  (s > 0 /\ \A n \in s + 1..Len(out) : out[n].a \in {"sattr", "dattr", "battr", "kattr", "sdflt"}) =>
+  ("DictDuplicatesAcrossDicts" \notin Dev /\ s > 0 /\ \A n \in s + 1..Len(out) : out[n].a \in {"sattr", "dattr", "battr", "kattr", "sdflt"}) =>
      \A m, n \in s + 1..Len(out) : m # n => AttrName(out[m]) # AttrName(out[n])
 
 \* C04: an expression occurrence is evaluated at most once per activation.
